@@ -15,6 +15,7 @@ from concurrent.futures import ProcessPoolExecutor, as_completed
 from fractions import Fraction
 
 VERIF = os.path.dirname(os.path.dirname(os.path.abspath(__file__)))
+OUT = os.environ.get("VERIF_OUT", VERIF)       # seed evaluations write their evidence / replays elsewhere
 PY = sys.executable
 HARNESS_ERROR = 2
 
@@ -180,14 +181,18 @@ def run_check(prop, harness_name, tier, seed, replay_path=None, selftest=False, 
     t_start = time.time()
     sys.path.insert(0, VERIF)
     H = importlib.import_module("harness." + harness_name)
-    os.makedirs(os.path.join(VERIF, "evidence"), exist_ok=True)
-    os.makedirs(os.path.join(VERIF, "replays"), exist_ok=True)
+    os.makedirs(os.path.join(OUT, "evidence"), exist_ok=True)
+    os.makedirs(os.path.join(OUT, "replays"), exist_ok=True)
     if replay_path:
         return do_replay(prop, replay_path)
 
     jobs = H.jobs(tier, seed)
     if jobs_filter:
         jobs = [j for j in jobs if re.search(jobs_filter, j["family"] + json.dumps(j["args"]))]
+    if tier == "thorough":
+        # the thorough job lists are larger than the wall budget: spread what is run over the whole list (seeded)
+        import random
+        random.Random(1234 + int(seed)).shuffle(jobs)
     for j in jobs:
         j["harness"] = harness_name
         j["tier"] = tier
@@ -385,7 +390,7 @@ def run_check(prop, harness_name, tier, seed, replay_path=None, selftest=False, 
         if key in seen:
             continue
         seen.add(key)
-        path = os.path.join(VERIF, "replays", "%s_%s_%d.json" % (prop, tier, len(seen)))
+        path = os.path.join(OUT, "replays", "%s_%s_%d.json" % (prop, tier, len(seen)))
         json.dump({"property": prop, "harness": harness_name, "family": v["family"], "args": v["args"],
                    "what": v["what"], "params": v["params"], "replay": v["replay"]}, open(path, "w"), indent=1)
         lines.append("VIOLATION property=%s replay=%s" % (prop, path))
@@ -448,7 +453,7 @@ def run_check(prop, harness_name, tier, seed, replay_path=None, selftest=False, 
         "wall_s": round(wall, 2),
         "violations": len(seen),
     }
-    json.dump(ev, open(os.path.join(VERIF, "evidence", prop + ".json"), "w"), indent=1, default=str)
+    json.dump(ev, open(os.path.join(OUT, "evidence", prop + ".json"), "w"), indent=1, default=str)
     for ln in lines:
         print(ln)
     for k_, n_ in sorted(unrepro.items(), key=lambda kv: -kv[1])[:5]:
